@@ -1,5 +1,5 @@
 #!/usr/bin/env python3
-"""Copy verified round-8 candidates (/tmp/mut/out9/<P>, result lines in .work/round9.log) to seeded/Cxx-r8m1."""
+"""Copy verified round-9 candidates (/tmp/mut/out9/<P>, result lines in .work/round9.log) to seeded/Cxx-r9m1."""
 import json, os, re, shutil, sys
 for line in open('/verif/.work/round9.log').read().splitlines():
     m = re.match(r'(C\d\d) (\S+): demo clean=(\d+) mutated=(\d+) suite=\[(.*?)\] check=\[(.*)\]', line)
